@@ -60,3 +60,47 @@ pub fn main(_args: &[String]) {
         let _ = out.flush();
     }
 }
+
+/// C02: one program under every collection schedule of the stated families; compares each run with the
+/// baseline (collection disabled) inside the worker and reports only the differences.
+/// Input fields as `run` plus: pairs (bool) - also every pair i<j of forced-collect steps when steps <= 60.
+pub fn gcsched_case(v: &serde_json::Value) -> serde_json::Value {
+    let mut base = v.clone();
+    base["gc"] = 0.into();
+    let b = run_case(&base);
+    let allocs: u64 = b.msg.rsplit("allocs=").next().and_then(|s| s.parse().ok()).unwrap_or(0);
+    let steps = b.steps;
+    let bcore = b.core();
+    let mut runs = 1u64; let mut diffs: Vec<serde_json::Value> = vec![]; let mut stale_total = b.stale; let mut ndiff = 0u64;
+    if b.stale != 0 { ndiff += 1; diffs.push(serde_json::json!({"schedule": "baseline", "obs": bcore, "stale": b.stale})); }
+    let mut try_sched = |name: String, patch: &dyn Fn(&mut serde_json::Value)| {
+        let mut c = v.clone(); c["gc"] = 0.into(); patch(&mut c);
+        let o = run_case(&c); runs += 1; stale_total += o.stale;
+        if o.core() != bcore || o.stale != 0 { ndiff += 1; if diffs.len() < 6 { diffs.push(serde_json::json!({"schedule": name, "obs": o.core(), "stale": o.stale, "msg": o.msg.chars().take(120).collect::<String>()})); } }
+    };
+    for t in [1u64, 2, 3, 5, 7, 100] { try_sched(format!("threshold={}", t), &|c| { c["gc"] = t.into(); }); }
+    try_sched("collect-after-every-step".into(), &|c| { c["collect_every"] = true.into(); });
+    let max_points = v.get("max_points").and_then(|x| x.as_u64()).unwrap_or(100_000);
+    if b.status != "budget" {
+        let sstride = (steps / max_points).max(1);
+        let mut i = 1; while i <= steps { try_sched(format!("collect-after-step={}", i), &|c| { c["collect_after"] = serde_json::json!([i]); }); i += sstride; }
+        let astride = (allocs / max_points).max(1);
+        let mut i = 1; while i <= allocs { try_sched(format!("collect-before-alloc={}", i), &|c| { c["alloc_collect"] = serde_json::json!([i]); }); i += astride; }
+        if v.get("pairs").and_then(|x| x.as_bool()).unwrap_or(false) && allocs <= 40 {
+            for i in 1..=allocs { for j in (i + 1)..=allocs { try_sched(format!("collect-before-allocs={},{}", i, j), &|c| { c["alloc_collect"] = serde_json::json!([i, j]); }); } }
+        }
+    }
+    serde_json::json!({"status": "ok", "base": bcore, "base_status": b.status, "steps": steps, "allocs": allocs, "runs": runs, "ndiff": ndiff, "diffs": diffs, "stale": stale_total})
+}
+
+pub fn gcsched_main(_args: &[String]) {
+    let stdin = std::io::stdin(); let stdout = std::io::stdout(); let mut out = stdout.lock();
+    for line in stdin.lock().lines() {
+        let Ok(line) = line else { break }; if line.trim().is_empty() { continue; }
+        let v: serde_json::Value = match serde_json::from_str(&line) { Ok(v) => v, Err(_) => continue };
+        let id = v.get("id").cloned().unwrap_or(serde_json::Value::Null);
+        let _ = writeln!(out, "BEGIN {}", id); let _ = out.flush();
+        let mut j = gcsched_case(&v); j["id"] = id;
+        let _ = writeln!(out, "{}", j); let _ = out.flush();
+    }
+}
